@@ -213,7 +213,8 @@ func (tt *Txs) ReadFrom(r io.Reader) (int64, error) {
 		return bytesRead, err
 	}
 
-	*tt = make([]*Tx, txCount)
+	// txCount is untrusted, so grow the slice as txs are read instead of pre-sizing it.
+	*tt = make([]*Tx, 0)
 
 	for i := uint64(0); i < uint64(txCount); i++ {
 		tx := new(Tx)
@@ -223,7 +224,7 @@ func (tt *Txs) ReadFrom(r io.Reader) (int64, error) {
 			return bytesRead, err
 		}
 
-		(*tt)[i] = tx
+		*tt = append(*tt, tx)
 	}
 
 	return bytesRead, nil
